@@ -516,6 +516,8 @@ class QasmProcessor:
                     qubit_lst = self.qubit_regs[qubit_name]
                     if qubit_ind < len(qubit_lst):
                         qubit = qubit_lst[0] + qubit_ind
+                    else:
+                        raise ValueError("QASM: qubit index out of bounds")
                 else:
                     qubit_name = reg
                     qubit = self.qubit_regs[qubit_name]
@@ -809,6 +811,10 @@ class QasmProcessor:
         # adds gate to the QubitCircuit
         for regs in reg_set:
             regs = [int(i) for i in regs]
+            if len(set(regs)) != len(regs):
+                raise ValueError(
+                    "QASM: a qubit is used twice in one statement"
+                )
             if command[0] in self.predefined_gates:
                 self._add_predefined_gates(
                     qc,
